@@ -20,7 +20,8 @@ from .. import ode, proj
 from ..irsym import Inconclusive, R, inv_axioms
 from ..report import Check
 
-EX = "/repo/naunet/examples"
+from ..paths import REPO
+EX = REPO + "/naunet/examples"
 
 
 def example_request(name):
